@@ -74,8 +74,9 @@ ASSUMPTIONS = [
 
 OPS = ("add_r", "rm_r", "add_w", "rm_w", "rm_close", "send", "fin", "drain", "sleep", "tick",
        "idle", "close", "agens")
-RACTS = ("all", "some", "rm", "rereg", "rmclose", "closesel", "addw", "raise")
-WACTS = ("fill", "once", "rereg", "rmclose", "closesel", "raise")
+RACTS = ("all", "some", "rm", "rereg", "rmclose", "closesel", "addw", "raise", "raise_cancel",
+         "raise_base")
+WACTS = ("fill", "once", "rereg", "rmclose", "closesel", "raise", "raise_cancel", "raise_base")
 FINALS = ("sel_close", "loop_first")
 # rare conditions that matter (reported even when zero)
 PROBES = (
@@ -88,7 +89,8 @@ PROBES = (
     "dispatch_after_close", "post_on_closed_loop",
     "ebadf_raised", "ebadf_fallback_select", "fd_closed_with_selector_alive",
     "waker_full", "multi_ready", "notify_woke_waiter", "cv_spurious_wakeup",
-    "rereg_in_callback", "rmclose_in_callback", "callback_raised", "eof_seen",
+    "rereg_in_callback", "rmclose_in_callback", "callback_raised",
+    "callback_raised_base_exception", "eof_seen",
     "writer_dispatch", "writer_window_full",
 )
 
@@ -121,7 +123,7 @@ def gen(rng, tier, index):
         "kind": "nostart" if rng.random() < 0.04 else "run",
         "construct": rng.choice(["before", "in_main"]),
         "final": rng.choice(["sel_close", "sel_close", "loop_first"]),
-        "waker_cap": rng.choice([1, 1, 2, 4096]),
+        "waker_cap": rng.choice([1, 1, 2, 4, 16, 4096]),
         "closed_wakes": rng.random() < 0.5,
         "line": line,
         # register socket objects (as asyncio users do) instead of descriptor numbers (as IOLoop does)
@@ -134,11 +136,11 @@ def gen(rng, tier, index):
         ract = []
         for _ in range(rng.choice([0, 0, 1, 2, 3])):
             ract.append(rng.choice(["all", "some", "some", "rm", "rereg", "rereg", "rmclose",
-                                    "closesel", "addw"] + (["raise"] * 6 if raising else [])))
+                                    "closesel", "addw"] + (RAISES * 2 if raising else [])))
         wact = []
         for _ in range(rng.choice([0, 0, 1, 2])):
             wact.append(rng.choice(["fill", "once", "rereg", "rereg", "rmclose", "closesel"]
-                                   + (["raise"] * 3 if raising else [])))
+                                   + (RAISES if raising else [])))
         fds.append({"win": rng.choice([1, 2, 4, 8]), "wbytes": rng.choice([0, 1, 3, 8, 20]),
                     "rcap": rng.choice([1, 2, 64]), "ract": ract, "wact": wact})
     big = tier == "thorough" and rng.random() < 0.3
@@ -224,6 +226,17 @@ class _WorkloadError(Exception):
     """Raised on purpose by a workload callback (action "raise")."""
 
 
+class _WorkloadBaseError(BaseException):
+    """Action "raise_base": asyncio's Handle._run reports every BaseException except
+    SystemExit / KeyboardInterrupt to the loop's exception handler and carries on."""
+
+
+RAISES = ["raise", "raise", "raise_cancel", "raise_base"]
+_RAISE_WHAT = {"raise": _WorkloadError, "raise_cancel": asyncio.CancelledError,
+               "raise_base": _WorkloadBaseError}
+_RAISE_NAMES = ("_WorkloadError", "CancelledError", "_WorkloadBaseError")
+
+
 def _child(request, result):
     scn = request["scn"]
     full_log = request["full_log"]
@@ -281,7 +294,7 @@ def _child(request, result):
                     "selector_thread.exception/" + type(r.exc).__name__)
         n_raised = 0
         for msg, exc in env.loop_errors:
-            if exc == "_WorkloadError":
+            if exc in _RAISE_NAMES:
                 n_raised += 1
                 continue
             bad("loop.callback_exception", f"{msg}: {exc}", f"loop.callback_exception/{exc}")
@@ -363,6 +376,8 @@ def _child(request, result):
                 probe("multi_ready")
         elif kind == "waker.full":
             probe("waker_full")
+        elif kind == "waker.send_blocks":
+            probe("waker_blocking_send_on_full_buffer")  # never on the unchanged tree
         elif kind == "cv.notify":
             if arg:
                 probe("notify_woke_waiter")
@@ -542,10 +557,12 @@ def _child(request, result):
             o = fds[(i + 1) % len(fds)]
             if not o.closed and not W.sel_closed:
                 add_w(o)
-        elif act == "raise":
+        elif act in _RAISE_WHAT:
             W.raised += 1
             probe("callback_raised")
-            raise _WorkloadError("reader fd#%d" % i)
+            if act != "raise":
+                probe("callback_raised_base_exception")
+            raise _RAISE_WHAT[act]("reader fd#%d" % i)
 
     def on_write(i, g):
         dispatch_common("w", i, g)
@@ -579,11 +596,13 @@ def _child(request, result):
             if not W.sel_closed:
                 probe("close_in_callback")
                 close_selector("callback")
-        elif act == "raise":
+        elif act in _RAISE_WHAT:
             rm_w(f)
             W.raised += 1
             probe("callback_raised")
-            raise _WorkloadError("writer fd#%d" % i)
+            if act != "raise":
+                probe("callback_raised_base_exception")
+            raise _RAISE_WHAT[act]("writer fd#%d" % i)
 
     def build():
         state["sel"] = tpa.AddThreadSelectorEventLoop(loop)
